@@ -1,2 +1,93 @@
+"""C10 extras: life-cycle flags survive copy().
+
+A hash/XOF class keeps its position in the documented life cycle in boolean
+attributes that its methods test before raising TypeError (`_is_squeezing`,
+`_digest_done`, ...).  copy() promises "the same internal state": for every
+such flag F of a class that has a copy() method, copy() is interpreted with
+F set and the clone it returns must carry the same value, otherwise a call the
+state diagram forbids is accepted (or refused with another exception class) on
+the clone.
+"""
+import ast
+
+from ..absint import Interp
+from ..absstate import State
+from ..absval import AObj, UNK, is_unk
+from ..core import AnalysisError
+from ..pydb import norm, walk_no_nested
+
+
+# Reviewed (class, flag) pairs.  ARMED: the flag mirrors an irreversible phase of the native state (after the first
+# squeeze the sponge cannot absorb), so a clone that loses it accepts or mis-reports a forbidden call.  NOT_ARMED: the
+# flag is a Python-only mark; the reason says why losing it on a clone is not a violation of the documented life cycle.
+ARMED = {("SHAKE128", "SHAKE128_XOF", "_is_squeezing"), ("SHAKE256", "SHAKE256_XOF", "_is_squeezing")}
+NOT_ARMED = {
+    "_digest_done": "SHA-3 digest() works on a temporary copy of the native state, the sponge is still absorbing; the "
+                    "documentation does not say that a clone inherits the 'digest taken' mark, and h.digest(); "
+                    "h.copy().update(x) is a plausible way to continue after an intermediate digest",
+}
+
+
+def lifecycle_flags(cnode):
+    """Attributes `a` with `if self.a ...: raise TypeError` in some method."""
+    flags = set()
+    for f in cnode.body:
+        if not isinstance(f, ast.FunctionDef):
+            continue
+        for n in walk_no_nested(f):
+            if isinstance(n, ast.If) and any(
+                    isinstance(x, ast.Raise) and x.exc is not None and "TypeError" in norm(x.exc) for x in n.body):
+                for a in ast.walk(n.test):
+                    if isinstance(a, ast.Attribute) and isinstance(a.value, ast.Name) and a.value.id == "self" \
+                            and a.attr.startswith("_") and a.attr not in ("_update_after_digest",):
+                        flags.add(a.attr)
+    return flags
+
+
 def run(check, ctx):
-    pass
+    repo = ctx.repo
+    n = 0
+    for mname in sorted(repo.modules):
+        if not mname.startswith("Crypto.Hash."):
+            continue
+        mod = repo.modules[mname]
+        for cnode in [c for c in mod.tree.body if isinstance(c, ast.ClassDef)]:
+            r = repo.find_method(mod, cnode, "copy")
+            if r is None:
+                continue
+            cfn = r[1]
+            if any(isinstance(x, ast.Raise) and "NotImplementedError" in norm(x.exc or ast.Name(id="")) for x in cfn.body):
+                continue
+            flags = lifecycle_flags(cnode)
+            # flags that hold a cached result rather than a state (the tag itself) are compared by value too
+            for flag in sorted(flags):
+                key = (mname.split(".")[-1], cnode.name, flag)
+                if key not in ARMED:
+                    check.count("lifecycle_flags_reviewed_not_armed" if flag in NOT_ARMED else "lifecycle_flags_not_armed")
+                    continue
+                it = Interp(repo, max_depth=4)
+                st = State()
+                me = it.new_obj(st, mod, cnode, havoc=True)
+                st.heap[me.ident][flag] = True
+                res = it.run(r[0], cfn, {}, self_obj=me, state=st)
+                rets = res.returns()
+                n += 1
+                ok = False
+                got = "no clone returned"
+                if rets:
+                    vals = []
+                    for o in rets:
+                        v = o.value
+                        if isinstance(v, AObj) and v.ident != me.ident:
+                            h = o.state.heap.get(v.ident, {})
+                            vals.append(h.get(flag, "<unset>") if flag in h or v.ident not in o.state.havoc else UNK)
+                        else:
+                            vals.append("<not a new object>")
+                    ok = all(v is True for v in vals)
+                    got = "clone.%s = %r" % (flag, vals[0] if len(set(map(repr, vals))) == 1 else vals)
+                check.ob("T-copy", "T-copy|%s.%s|%s" % (mname.split(".")[-1], cnode.name, flag), ok, mod.path, cfn.lineno,
+                         extracted="copy() of an object with %s set: %s" % (flag, got),
+                         expected="the clone is at the same point of the life cycle (same %s): a call that is refused with TypeError "
+                                  "on the original is refused with TypeError on the clone" % flag)
+    if n < 2:
+        raise AnalysisError("T-copy: only %d armed (class, flag) pairs found (confirmed: SHAKE128/256._is_squeezing)" % n)
